@@ -313,6 +313,10 @@ def _nonempty_polarity(test: ast.AST):
         return None if p is None else (not p)
     if isinstance(test, (ast.Attribute, ast.Name)):
         return True
+    if isinstance(test, ast.BoolOp) and isinstance(test.op, ast.Or):
+        # "noise_types non-empty or <anything else noisy>": still raises whenever noise_types is non-empty
+        pols = [_nonempty_polarity(v) for v in test.values if "noise_types" in text(v, 400)]
+        return True if pols and all(p is True for p in pols) else None
     if isinstance(test, ast.Compare) and len(test.ops) == 1:
         a, b, op = test.left, test.comparators[0], test.ops[0]
 
